@@ -231,11 +231,25 @@ def late_binding_closures(ctx, rule, classes=None):
     model = ctx.model
     n = 0
     bad = []
+    class _Scope:
+        def __init__(self, qualname, node, anchor):
+            self.qualname, self.node, self.anchor = qualname, node, anchor
+    scopes = []
     for fi in model.funcs.values():
         if fi.mod.rel not in ('pyplate/pyplate.py', 'pyplate/slicer.py') or fi.parent is not None:
             continue
         if classes is not None and (fi.cls is None or fi.cls.name not in classes):
             continue
+        scopes.append(_Scope(fi.qualname, fi.node, fi))
+    # class bodies: a table of lambdas built by a comprehension at class level has the same problem
+    for ci in model.classes.values():
+        if ci.mod.rel not in ('pyplate/pyplate.py', 'pyplate/slicer.py') or (classes is not None and ci.name not in classes):
+            continue
+        stmts = [st for st in ci.node.body if not isinstance(st, (ast.FunctionDef, ast.AsyncFunctionDef, ast.ClassDef))]
+        if stmts:
+            holder = ast.Module(body=stmts, type_ignores=[])
+            scopes.append(_Scope(f"{ci.name} (class body)", holder, next(iter(ci.methods.values()), None)))
+    for fi in scopes:
         loops = [x for x in ast.walk(fi.node) if isinstance(x, (ast.For, ast.ListComp, ast.DictComp, ast.SetComp, ast.GeneratorExp))]
         for lp in loops:
             if isinstance(lp, ast.For):
@@ -260,7 +274,9 @@ def late_binding_closures(ctx, rule, classes=None):
                     par = getattr(c, 'parent', None)
                     kept = None
                     if isinstance(c, ast.Lambda):
-                        if not isinstance(lp, ast.For) and (c is getattr(lp, 'elt', None) or c is getattr(lp, 'value', None)):
+                        if not isinstance(lp, ast.For) and (c is getattr(lp, 'elt', None) or c is getattr(lp, 'value', None) or
+                                                            any(c is x for x in ast.walk(getattr(lp, 'value', None) or getattr(lp, 'elt', None))
+                                                                if isinstance(getattr(lp, 'value', None) or getattr(lp, 'elt', None), (ast.Tuple, ast.List)))):
                             kept = 'element of the comprehension'
                         elif isinstance(par, ast.Call) and isinstance(par.func, ast.Attribute) and par.func.attr in ('append', 'add', 'insert', 'setdefault', 'update') \
                                 and c in par.args:
@@ -284,7 +300,7 @@ def late_binding_closures(ctx, rule, classes=None):
                         bad.append((fi, c.lineno, captured, kept))
     anchor = model.func('Container._transfer')
     for fi, line, captured, kept in bad:
-        ctx.ob(rule, fi, line, f"{fi.qualname}: a closure made in a loop binds {captured} when it is made", False,
+        ctx.ob(rule, fi.anchor or anchor, line, f"{fi.qualname}: a closure made in a loop binds {captured} when it is made", False,
                fact=f"{kept}; free loop variable(s) {captured}", why='the closure is called after the loop has moved on: every '
                'kept copy sees the last value of the loop variable', key=f"late-binding closure in {fi.qualname}")
     ctx.ob(rule, anchor, anchor.node.lineno, 'no closure kept beyond its loop iteration captures the loop variable late', not bad,
